@@ -1,35 +1,40 @@
 ----------------------------- MODULE Trace_Faults -----------------------------
-(* Judges observations of the real code: one record per line of obs.ndjson,
-   {id, kind:"fault", fault, situation, form, outcome, msg, printed, recovered, src}.
-   outcome is the class the driver saw under its host recover(): nil | panicerror | othererror | hostpanic. *)
+(* Judges observations of the real code, one record per line of obs.ndjson:
+   {id, kind:"fault", fault, situation, form, opt, outcome, msg, printed, recovered, src}
+   {id, kind:"show", value, ctx, box, outcome, msg, out, src}
+   outcome is the class the driver saw under its host recover(): nil | panicerror | stoperr | ctxerr | othererror |
+   hostpanic | processdeath (the child process that ran the case died). *)
 EXTENDS Faults, TLC, Json
 
-Known(r) == r.fault \in FaultNames /\ r.situation \in Situations /\ r.form \in Forms
-CaseOf(r) == [fault |-> r.fault, situation |-> r.situation, form |-> r.form]
+IsFault(r) == r.kind = "fault"
+Known(r) == IF IsFault(r) THEN r.fault \in FaultNames /\ r.situation \in Situations /\ r.form \in Forms /\ r.opt \in Opts
+            ELSE r.value \in ShowValues /\ r.ctx \in ShowContexts /\ r.box \in Boxes
+CaseOf(r) == [fault |-> r.fault, situation |-> r.situation, form |-> r.form, opt |-> r.opt]
 \* a record the reference has no row for is skipped and counted (ref_undefined), never failed
-RecOk(r) == ~Known(r) \/ OutcomeOk(CaseOf(r), r.outcome)
-\* root cause (signature only): the instruction class at which the fault surfaces / the callback machine; the
-\* renderer lost after a defer in a function literal of a template is named only when, according to the
-\* implementation-shaped model, the fault by itself would not have reached the host
+RecOk(r) == ~Known(r) \/ (IF IsFault(r) THEN OutcomeOk(CaseOf(r), r.outcome) ELSE ShowOk(r.outcome))
+\* root cause (signature only): the instruction class at which the fault surfaces / the callback machine when the
+\* implementation-shaped model says that the fault by itself reaches the host; otherwise the situation class
+\* (the fault is converted, something in the situation - the sequence, the run options - breaks the run)
 Cause(r) == LET f == FaultByName(r.fault)
                 own == IF f.nested = "panics" THEN "callback-vm" ELSE f.op IN
-            IF RendererLost(CaseOf(r)) /\ ModelOutcomeWith(CaseOf(r), FALSE) # "hostpanic" THEN "defer-in-template-function"
-            ELSE own
-Sig(r) == IF Known(r) THEN [fam |-> "faults", fault |-> FaultByName(r.fault).class, cause |-> Cause(r)]
-          ELSE [fam |-> "faults", fault |-> r.fault, cause |-> "unknown-case"]
+            IF ModelOutcome(CaseOf(r)) = "hostpanic" THEN own
+            ELSE <<"situation", SituationClass(r.situation), r.form, r.opt>>
+Sig(r) == IF ~Known(r) THEN [fam |-> "faults", fault |-> "unknown-case", cause |-> "unknown-case"]
+          ELSE IF IsFault(r) THEN [fam |-> "faults", fault |-> FaultByName(r.fault).class, cause |-> Cause(r)]
+          ELSE [fam |-> "show", value |-> ValueClass(r.value), ctx |-> CtxClass(r.ctx)]
 
 (* ---- record-walk skeleton (same in every record-per-line Trace spec; see spec/README) ---- *)
 VARIABLES l, nbad
 Obs == ndJsonDeserialize("obs.ndjson")
 \* (the variables of the run machine of Faults.tla are not used by the walk: pinned)
-Pinned == cs = "-" /\ phase = "-" /\ op = "-" /\ pv = "-" /\ recovering = FALSE /\ result = "-"
+Pinned == cs = "-" /\ pc = 0 /\ acc = "-" /\ raised = "-" /\ phase = "-" /\ closes = 0 /\ result = "-"
 Init == l = 1 /\ nbad = 0 /\ Pinned
 Next == l <= Len(Obs) /\ l' = l + 1 /\ nbad' = nbad + (IF RecOk(Obs[l]) THEN 0 ELSE 1) /\ UNCHANGED vars
 BadIdx == SelectSeq([i \in 1..Len(Obs) |-> i], LAMBDA i : ~RecOk(Obs[i]))
 \* diagnostics (never a verdict): records whose outcome differs from the implementation-shaped model
 \* (model_drift) or from the outcome class the reference expects (e.g. a fault that returns nil)
-DriftIdx == SelectSeq([i \in 1..Len(Obs) |-> i], LAMBDA i : Known(Obs[i]) /\ Obs[i].outcome # ModelOutcome(CaseOf(Obs[i])))
-RefMissIdx == SelectSeq([i \in 1..Len(Obs) |-> i], LAMBDA i : Known(Obs[i]) /\ RecOk(Obs[i]) /\ Obs[i].outcome \notin RefOutcomes(CaseOf(Obs[i])))
+DriftIdx == SelectSeq([i \in 1..Len(Obs) |-> i], LAMBDA i : Known(Obs[i]) /\ IsFault(Obs[i]) /\ Obs[i].outcome # ModelOutcome(CaseOf(Obs[i])))
+RefMissIdx == SelectSeq([i \in 1..Len(Obs) |-> i], LAMBDA i : Known(Obs[i]) /\ IsFault(Obs[i]) /\ RecOk(Obs[i]) /\ Obs[i].outcome \notin RefOutcomes(CaseOf(Obs[i])))
 UndefIdx == SelectSeq([i \in 1..Len(Obs) |-> i], LAMBDA i : ~Known(Obs[i]))
 Done == l = Len(Obs) + 1 =>
           /\ ndJsonSerialize("bad.ndjson",
